@@ -431,8 +431,9 @@ func runReplay(b behaviour) caseResult {
 			res.Status = "drift"
 			res.Detail = drift
 		case b.Stuck || b.LostResume:
-			res.Status = "inconclusive"
-			res.Detail = "the model predicts a stuck state for this schedule but the client was not stuck"
+			// the as-is model predicts a stuck end for this schedule, the client came through: the
+			// deviation is not (or no longer) in the code.  The verdict is the client's behaviour.
+			obs["model_end_not_reproduced"] = true
 		}
 	}
 	res.Trace = e.ctl.snapshot()
